@@ -32,6 +32,9 @@ CASES_Q = [
     ('quso', 'QUSO', [('a', 'b')], 1, 'T0', 'up', 1, 'cancelled-variable'),
     ('quso', 'QUSO', [('a', 'b')], 1, 'linear1', None, 1, 'all-cancelled'),
     ('quso', 'PCSO', [('a',), ('a', 'b')], 1, 'T0', 'mixed', 1, None),
+    ('quso', 'QUSOMatrix', [(0,), (1, 2)], 1, 'T0', 'mixed', 1, None),                      # field on a spin without couplings
+    ('quso', 'QUSO', [('a',), ('b',)], 1, 'T1', None, 1, None),                             # purely linear
+    ('qubo', 'QUBO', [('a',), ('b', 'c')], 1, 'T0', 'down', 1, None),
     ('puso', 'PUSOMatrix', [(0, 1, 2), (1,), ()], 1, 'T0', 'mixed', 1, None),
     ('puso', 'PUSO', [('a', 'b', 'c'), ('a', 'd')], 1, 'Thalf', None, 1, None),
     ('puso', 'PUSOMatrix', [(0, 1, 3), (1, 3)], 2, 'T0', 'up', 1, None),                   # index gap
